@@ -414,6 +414,7 @@ func C20(c *vlib.Ctx) {
 	}
 	c20Confinement(c, root, &row)
 	c20PathSpellings(c, root, &row)
+	c20NameSpellings(c, root, &row)
 }
 
 // c20CrossCheckSpec compares the transcribed table with the flag headings of spec.md.
@@ -445,6 +446,85 @@ func c20CrossCheckSpec(c *vlib.Ctx) {
 		}
 	}
 	c.Set("spec_md_tools_cross_checked", checked)
+}
+
+// c20NameSpellings: tool names that differ from a gated tool's name only by
+// padding, case or an invisible suffix, called under server configurations in
+// which the tool itself is refused (its flag is off, or no principal is
+// configured). However the server reads such a name - as unknown, or as the
+// tool - the call must be refused and leave files, queue and processes alone.
+func c20NameSpellings(c *vlib.Ctx, root string, row *int) {
+	var names []string
+	for n, spec := range c20Tools {
+		if spec.Flag != "" || spec.Mutating {
+			names = append(names, n)
+		}
+	}
+	sort.Strings(names)
+	spell := map[string]func(string) string{
+		"trailing_space": func(n string) string { return n + " " }, "leading_space": func(n string) string { return " " + n },
+		"trailing_newline": func(n string) string { return n + "\n" }, "trailing_tab": func(n string) string { return n + "\t" },
+		"upper_case": strings.ToUpper, "trailing_nbsp": func(n string) string { return n + "\u00a0" }, "trailing_nul": func(n string) string { return n + "\x00" },
+		"crlf": func(n string) string { return n + "\r\n" },
+	}
+	var spellNames []string
+	for k := range spell {
+		spellNames = append(spellNames, k)
+	}
+	sort.Strings(spellNames)
+	type srv struct {
+		mut, rt   bool
+		principal string
+	}
+	for _, tool := range names {
+		spec := c20Tools[tool]
+		// configurations in which the tool itself must be refused although the role suffices
+		var cfgs []srv
+		if spec.Flag != "" {
+			cfgs = append(cfgs, srv{false, false, "alice"})
+		}
+		if spec.Mutating {
+			cfgs = append(cfgs, srv{true, true, ""})
+		}
+		for _, sn := range spellNames {
+			name := spell[sn](tool)
+			for _, sv := range cfgs {
+				*row++
+				f, err := c20NewFixture(root, *row)
+				if err != nil {
+					c.Inconclusive(err.Error())
+					return
+				}
+				before := c20Snapshot(f.Dir)
+				ro, recs, err := c20Call(f, "admin", sv.mut, sv.rt, sv.principal, "tools/call", map[string]any{"name": name, "arguments": c20Args(tool, f, "")})
+				after := c20Snapshot(f.Dir)
+				if err != nil {
+					c.Inconclusive(fmt.Sprintf("C20 name spelling %q: %v", name, err))
+					_ = os.RemoveAll(f.Dir)
+					continue
+				}
+				text := ""
+				if len(ro.Result.Content) > 0 {
+					text = ro.Result.Content[0].Text
+				}
+				c.Count("evaluations", 1)
+				c.Count("name_spelling_calls", 1)
+				c.Distinct("nontrivial", fmt.Sprintf("name_spelling:%s:%s:m=%v:p=%v", tool, sn, sv.mut, sv.principal != ""))
+				wit := map[string]any{"tool": tool, "name_sent": name, "spelling": sn, "enable_mutations": sv.mut, "enable_runtime_control": sv.rt, "principal": sv.principal,
+					"is_error": ro.Result.IsError, "text": text[:minInt(300, len(text))], "audit": recs, "fs_diff": fsDiff(before, after)}
+				refused := ro.Error != nil || ro.Result.IsError
+				if !refused {
+					c.Violation(vlib.Signature{"class": "refused_call_ran", "tool": tool, "name_spelling": sn, "flags": fmt.Sprintf("m=%v,r=%v", sv.mut, sv.rt), "principal": fmt.Sprint(sv.principal != "")},
+						fmt.Sprintf("tool name %q ran although %s itself is refused with mutations=%v runtime=%v principal=%q: %s", name, tool, sv.mut, sv.rt, sv.principal, text[:minInt(160, len(text))]), wit)
+				}
+				if d := fsDiff(before, after); len(d) > 0 {
+					c.Violation(vlib.Signature{"class": "refused_call_had_effect", "tool": tool, "name_spelling": sn, "flags": fmt.Sprintf("m=%v,r=%v", sv.mut, sv.rt), "principal": fmt.Sprint(sv.principal != "")},
+						fmt.Sprintf("tool name %q changed files although %s itself is refused in this configuration: %v", name, tool, d), wit)
+				}
+				_ = os.RemoveAll(f.Dir)
+			}
+		}
+	}
 }
 
 // c20Spellings: other spellings of a configured path. None of them is
